@@ -4,7 +4,7 @@ import ast
 from ..core.model import AnchorError
 from ..core.cfg import walk_shallow, cfg_of
 from ..core.facts import U, atoms_of
-from ..engine import fn_name, kwarg, local_defs, returns_of, stmts_in, const_str
+from ..engine import argn, fn_name, kwarg, local_defs, returns_of, stmts_in, const_str
 from ..kinds import parity, extapi
 from . import c02
 
@@ -30,8 +30,8 @@ def s2(ctx, rep):
     cfg = cfg_of(f)
     row = None
     app = [c for nid, c in ctx.calls_in(f, method="append") if U(c.func.value) == "self.results"]
-    if app and isinstance(app[0].args[0], ast.Name):
-        row = app[0].args[0].id
+    if app and isinstance(argn(app[0], 0), ast.Name):
+        row = argn(app[0], 0).id
     if row is None:
         raise AnchorError("StoreResultsCallback.on_trial_result: appended row variable not found")
     want = {"ST_DECISION": "decision", "ST_STATUS": "status", "ST_TRIAL_ID": "trial.trial_id"}
@@ -112,7 +112,7 @@ def s4(ctx, rep):
             key = U(st[0].targets[0].slice)
             ok = isinstance(v, ast.Call) and isinstance(v.func, ast.Name) and v.func.id == op and len(v.args) == 2
             if ok:
-                a0, a1 = U(v.args[0]).replace(" ", ""), U(v.args[1])
+                a0, a1 = U(argn(v, 0)).replace(" ", ""), U(argn(v, 1))
                 ok = a0 == f"self.{attr}.get({key},{init})" and a1 == newv
         rep.put(ok, "S4", "agreement", f"MetricsStatistics.add: {attr}[k] = {op}(old or {init}, new value)", f, st[0] if st else None, "",
                 f"{attr} is not updated with {op}(previous, new) starting from {init}: the running {op[:3]}imum is wrong")
